@@ -209,13 +209,20 @@ def handle_imagemod(self, mod_type, match):
         handle_img_width(self, match)
 
 
+def _codepoint2chr(code):
+    if 0xD800 <= code <= 0xDFFF:
+        # a lone surrogate is not a character: it cannot be encoded later on
+        raise ValueError("surrogate code point")
+    return chr(code)
+
+
 def resolve_entity(entity):
     if entity[1] == "#":
         try:
             if entity[2] == "x" or entity[2] == "X":
-                return chr(int(entity[3:-1], 16))
+                return _codepoint2chr(int(entity[3:-1], 16))
             else:
-                return chr(int(entity[2:-1]))
+                return _codepoint2chr(int(entity[2:-1]))
         except (ValueError, OverflowError):
             return entity
     else:
